@@ -61,6 +61,9 @@ def static_T():
                                  "values %r, table %r" % (a.get("values"), p["values"])))
             obs.append(static_ob(pre + ".positional.%s.required" % p["name"], bool(a.get("required", False)) == (not p["optional"]),
                                  "required %r, table optional=%r" % (a.get("required", False), p["optional"])))
+    for ob in obs:
+        if ob.status == "refuted":
+            ob.native = common.table_replay(ob.oid.split(".")[2])
     return obs
 
 
